@@ -76,6 +76,7 @@ def run_tlc(
     xss: str | None = None,
     xmx: str | None = None,
     cwd: Path | None = None,
+    prefixes: tuple[str, ...] = ('"',),
 ) -> TlcStats:
     """Run TLC on spec/<module>.tla with config `cfg`; stream stdout lines to `on_line`.
 
@@ -117,7 +118,7 @@ def run_tlc(
         assert proc.stdout
         for line in proc.stdout:
             line = line.rstrip("\n")
-            if line.startswith('"') and on_line is not None:
+            if on_line is not None and line.startswith(prefixes):
                 on_line(line)
                 continue
             st.tail.append(line)
